@@ -20,7 +20,7 @@ def run(tier):
     rep.add_tlc(r, 'Loader_mc')
     rep.model_violation(r, 'Loader_mc')
     cbuild.build()
-    per = 24 if tier == 'quick' else 240
+    per = 64 if tier == 'quick' else 400
     with mp.get_context('fork').Pool(16) as pool:
         parts = pool.map(loaddrv.worker, [(sd * 83 + k, per, wd, k % 2 == 0) for k in range(16)])
     cases = [c for p in parts for c in p]
